@@ -406,6 +406,14 @@ class Model:
         self.op_rmexp(pred, e)
         pred.trig.add('eol_during_unwinding')
 
+    def op_rmexpc(self, pred, e):
+        self.op_rmexp(pred, e)
+        pred.trig.add('eol_inside_catch')
+
+    def op_rmobjc(self, pred, o):
+        self.op_rmobj(pred, o)
+        pred.trig.add('death_inside_catch')
+
     def op_rmobjx(self, pred, o):
         self.op_rmobj(pred, o)
         pred.trig.add('death_during_unwinding')
@@ -472,6 +480,12 @@ class Model:
     def op_callx(self, pred, o, fn, *args):
         pred.outcome = self.do_call(pred, o, fn, args, nested=False)
         pred.trig.add('call_in_handler')
+
+    def op_callu(self, pred, o, fn, *args):
+        pred.outcome = self.do_call(pred, o, fn, args, nested=False)
+        pred.trig.add('call_during_unwinding')
+        if pred.accepted is not True or pred.outcome[0] not in ('ret', 'void', 'ref') or pred.cut:
+            self.illegal = 'a call made from a destructor during unwinding must be accepted and return normally'
 
     def do_call(self, pred, o, fn, args, nested):
         ob = self.objs[o]
